@@ -141,6 +141,45 @@ def run(F, R, tier):
                     "%s can return without attempting %s, e.g. under %s" % (fid.replace(ST, ""), nm, bad[0] if bad else ""))
     R.floor("C17.R5", n_sites, 12, "call sites leading to a copy/delete of the tables, each a must-pass of its function")
 
+    # ------------------------------------------------------------------ R6 what can abort uninstall before the files are deleted
+    # main's uninstall_service() exits the process when service::stop_and_delete_service fails, i.e. *before* delete_package. The only
+    # accepted failure source on that path is "systemctl could not be spawned" (Command::output); a non-zero systemctl exit status,
+    # a missing unit file etc. must not abort (they are the normal state of a partially installed agent).
+    R.rule("C17.R6", "failure sources that abort uninstall before delete_package: only a process-spawn failure")
+    us = R.anchor(ST + "uninstall_service", "C17.R6")
+    if us:
+        Bu = mir.Body(F.body_of(ST + "uninstall_service"), F)
+        roots = [r or w for bi, w, r, t in Bu.calls if w != mir.POLL and (r or w or "").startswith(SH + "service::")]
+        R.check(len(roots) == 1 and q.ends(roots[0], "stop_and_delete_service"), "C17.R6", "C17.R6:uninstall_service:root", "-",
+                "uninstall_service depends on service::stop_and_delete_service only", "service calls of uninstall_service: %s" % roots)
+        work, seen6, leaves = list(roots), set(), set()
+        while work:
+            fid = work.pop()
+            if fid in seen6:
+                continue
+            seen6.add(fid)
+            fn = F.body_of(fid)
+            if fn is None:
+                R.fail("C17.R6", "C17.R6:%s:no-body" % fid, "-", "no MIR for %s" % fid)
+                continue
+            Bf = mir.Body(fn, F)
+            R.touched(fn["id"])
+            for o in sorted(Bf.origins({"k": "copy", "p": {"l": 0, "p": []}}), key=str):
+                if o[0] == "agg" and str(o[1]).endswith("Result::Ok"):
+                    continue
+                if o[0] == "call" and (o[1].startswith(SH + "service::") or o[1] == SH + "misc_helpers::execute_command"):
+                    work.append(o[1])
+                    continue
+                if o[0] == "call" and q.ends(o[1], "std::process::Command::output", "std::process::Command::spawn", "std::process::Command::status"):
+                    leaves.add(q.base_name(o[1]))
+                    continue
+                R.fail("C17.R6", "C17.R6:%s:failure-source:%s" % (fn["id"], o[1] if o[0] == "call" else o[0] + ":" + str(o[1])),
+                       "%s:%s" % (fn["file"], fn["line"]),
+                       "%s can fail for a reason other than a spawn failure (result origin %s): uninstall then exits before delete_package and "
+                       "the installed files stay" % (fn["id"].replace(SH, ""), str(o)))
+        R.check(bool(leaves), "C17.R6", "C17.R6:leaf", "-", "all failures on the uninstall path come from %s (%d functions followed)" % (sorted(leaves), len(seen6)))
+        R.floor("C17.R6", len(seen6), 6, "service functions on the uninstall path")
+
     # ------------------------------------------------------------------ R2 ordering in main
     B = mir.Body(main, F)
     arms = q.actor_arms(B, F, ST + "args::Command")
